@@ -7,6 +7,7 @@ method (Shepperd's tie set, the closed-form direction, Hughes' identity case, th
 arms that fire for thresholds -1/2, 0, 1/2).  The harness feeds the exact matrix to every
 method x dispatcher and requires a real, finite, unit quaternion equal to an allowed
 direction."""
+import math
 import numpy as np
 
 from .. import core, tlc
@@ -251,6 +252,40 @@ def relational(seed, n):
     return t
 
 
+def option_memory():
+    """a method's options belong to the call they are given to: a call WITHOUT options answers the same before and after some other
+    call was given options (every dispatcher; identity, a 1e-9 rad rotation, a general rotation, a rotation 1e-6 from a half-turn)"""
+    t = Tally()
+    c, s_ = math.cos(1e-9), math.sin(1e-9)
+    probes = [np.identity(3), np.array([[c, -s_, 0.0], [s_, c, 0.0], [0.0, 0.0, 1.0]]), core.g_rot((3, 1, -2, 1)), core.g_rot((1, 2000000, -1000000, 2000000))]
+    disps = DISPATCHERS[:6] + ["QuaternionArray.from_DCM(inplace=False)#3@2"]
+
+    def plain(disp, R, m):
+        if disp == "function":
+            return np.asarray(getattr(ori, m)(R.copy()), dtype=float)
+        return np.asarray(dispatch(disp, R, m, {}), dtype=float)
+    for m, loud in (("sarabandi", {"threshold": 3.0}), ("itzhack", {"version": 1}), ("sarabandi", {"threshold": -0.9})):
+        before = {}
+        for d in disps:
+            for i, R in enumerate(probes):
+                t.calls += 1
+                before[(d, i)] = core.outcome(lambda: plain(d, R, m))
+        for d in disps:           # calls WITH options, results not used
+            core.outcome(lambda: dispatch(d, probes[2], m, loud))
+        for d in disps:
+            for i, R in enumerate(probes):
+                t.calls += 1
+                o = core.outcome(lambda: plain(d, R, m))
+                b = before[(d, i)]
+                t.keys.add(("option-memory", m, tuple(loud.items()), d, i))
+                same = (o[0] == b[0]) and (np.array_equal(o[1], b[1], equal_nan=True) if o[0] == "ok" else o[1] == b[1])
+                if not same:
+                    t.fail("C02|%s|%s|call-without-options-answers-differently-after-a-call-with-options" % (m, d),
+                           {"method": m, "options-given-to-the-other-call": loud, "probe": ["identity", "1e-9 rad", "general", "near half-turn"][i],
+                            "before": b[1], "after": o[1]})
+    return t
+
+
 def run(chk):
     quick = chk.tier == "quick"
     chk.rule = ("one case per register u of L(2) u thin families (TLC-emitted, exact) and per thin-family member evaluated with "
@@ -271,6 +306,7 @@ def run(chk):
     core.merge(chk, core.pmap(replay_cases, recs))
     core.merge(chk, core.pmap(replay_thin, thin_cases(chk.tier)))
     core.merge(chk, [relational(chk.seed, 60 if quick else 1500)])
+    core.merge(chk, [option_memory()])
     # behaviours of the closed machine that interleave ToQuat with products / conjugates, replayed and
     # recorded; TLC validates the recorded traces (TraceAttitude)
     from . import c01
